@@ -55,6 +55,9 @@ class QGen:
             "max_cols": 3,
             "math_in_arith": True,
             "partial_bias": 0.0,     # extra weight on First/index (C04)
+            "agg_computed_seed": True,   # Aggregate seed that is itself an aggregate
+            "first_of_nested": True,     # First() of a sequence of sequences, used as a sequence
+            "self_join": True,           # nested loop over the same collection VARIABLE
         }
         self.o.update(opts)
 
@@ -227,6 +230,12 @@ class QGen:
             if which == "Aggregate":
                 a, x = self.v(), self.v()
                 seed = self.lit(want)
+                if self.o["agg_computed_seed"] and d > 1 and R.random() < 0.2:
+                    try:
+                        seed = self.call(self.seq(env, d - 2, self.any_elem(), True), "Count")
+                        self.f("Aggregate_computed_seed")
+                    except CannotGenerate:
+                        pass
                 body = R.choice([f"{a} + {x}", f"{a} + {x} * 2", f"{a} - {x}", f"{x} + {a}"])
                 if want == "float" and R.random() < 0.3:
                     body = f"{a} + {x} / 2.0"
@@ -414,6 +423,12 @@ class QGen:
         self.f("coll_" + coll)
         return coll, bank, self.s["collections"][coll]["element"]
 
+    def body_env(self, env, src: str):
+        "environment for a lambda body: without the sequence variable the lambda loops over, unless self-joins are allowed"
+        if self.o["self_join"]:
+            return env
+        return [(n, t) for n, t in env if n != src]
+
     def seq(self, env, d: int, el, agg: bool = False) -> str:
         """sequence expression with element type el"""
         R = self.R
@@ -443,7 +458,7 @@ class QGen:
                     x = self.v()
                     src = self.seq(env, d - 1, el, agg)
                     self.f("Where_obj")
-                    return self.call(src, "Where", f"lambda {x}: {self.boolean(env + [(x, el)], d - 1)}")
+                    return self.call(src, "Where", f"lambda {x}: {self.boolean(self.body_env(env, src) + [(x, el)], d - 1)}")
                 opts.append((3, where))
                 if evs and (self.o["agg_over_selectmany"] or not agg):
                     sub = [(mn, m) for mn, m in self.members(main_el, lambda m: m["k"] == "objvec" and m["cls"] == cls)]
@@ -486,7 +501,7 @@ class QGen:
                         st = T_num("int")
                         src = self.seq(env, d - 1, st, agg)
                     x = self.v()
-                    body, _ = self.num(env + [(x, st)], d - 1, kind)
+                    body, _ = self.num(self.body_env(env, src) + [(x, st)], d - 1, kind)
                     self.f("Select")
                     return self.call(src, "Select", f"lambda {x}: {body}")
 
@@ -494,7 +509,7 @@ class QGen:
                     x = self.v()
                     src = self.seq(env, d - 1, el, agg)
                     self.f("Where_num")
-                    return self.call(src, "Where", f"lambda {x}: {self.boolean(env + [(x, el)], d - 1)}")
+                    return self.call(src, "Where", f"lambda {x}: {self.boolean(self.body_env(env, src) + [(x, el)], d - 1)}")
 
                 def smany():
                     cls = self.any_obj_cls(env)
@@ -508,6 +523,12 @@ class QGen:
                 opts += [(5, select), (2, where)]
                 if self.o["agg_over_selectmany"] or not agg:
                     opts.append((1, smany))
+                if self.o["first_of_nested"] and self.o["first"] and d > 1:
+                    def first_nested():
+                        inner = self.seq(env, d - 1, T_seq(el))
+                        self.f("First_of_nested")
+                        return self.call(inner, "First")
+                    opts.append((0.5, first_nested))
             if not opts:
                 return self.seq_fallback(env, kind)
             try:
